@@ -215,6 +215,10 @@ def run_sim_class(chk, cls, scs, mons, variant=None, batch=250, tag=None):
             sc["reuse_commands"] = True
         if "fresh_controllers" not in sc and k % 2 == 0:
             sc["fresh_controllers"] = True     # a new CommunicationController object for every range request
+        if "odd_names" not in sc and k % 5 == 3:
+            sc["odd_names"] = True             # timer names containing pattern characters ("slot[1]", "s*", "done?")
+        if "truthy_preds" not in sc and k % 2 == 1:
+            sc["truthy_preds"] = True          # assertion predicates return non-bool objects with the same truth value
         # the harness' own default switches execution logging off; every fourth scenario runs under the
         # library's default configuration (execution_logging=True) instead
         if variant is None and "variant" not in sc and k % 4 == 2:
@@ -269,7 +273,7 @@ def run_sim_class(chk, cls, scs, mons, variant=None, batch=250, tag=None):
 
 def _brief(sc):
     d = {k: sc[k] for k in ("handlers", "nodes", "med", "mob", "asserts", "seed", "dur", "maxit", "drv", "script")}
-    for k in ("reuse_commands", "fresh_controllers", "variant", "stream"):
+    for k in ("reuse_commands", "fresh_controllers", "odd_names", "truthy_preds", "variant", "stream"):
         if k in sc:
             d[k] = sc[k]
     return d
